@@ -192,7 +192,10 @@ CHECKS = {
           "one client monotone. Deadlocks (watchdog + goroutine dump), process crashes and duplicate rows are reported directly.",
   "design_ref": "DESIGN.md section 5 C04",
   "note": "schedules are sampled on the code side; each cell has one writer; series created before the concurrent phase; queries overlapping "
-          "the close are only required to terminate; the driver reads the shard object directly (in process). Symptoms of the open finding "
+          "the close are only required to terminate; the driver reads the shard object directly (in process); half of the queries carry "
+          "time bounds inside the shard and half span the whole time line (the store takes its file view through a different path when no "
+          "bound falls inside the shard); in half of the runs that close in the middle a planner keeps calling LevelCompact while the shard "
+          "closes, as the store's compaction worker does (Close must still return: watchdog). Symptoms of the open finding "
           "F-C04-1 are attributed only in runs that start on a re-opened shard (the reload window) or in the directed reproduction.",
   "technique": "TLA+ spec (View.tla) model-checked by TLC; client-visible histories recorded from a concurrent driver on the real shard validated by TLC (TraceView.tla)",
  },
